@@ -24,5 +24,9 @@ CHECKS = {
         text="Lean state machine transcribing IdentityManager / CstNameGenerator / CstList (InsertPositionFor, CanMoveBefore, splice) / RSCore insertion paths, Erase, SetAliasFor, ResetAliases / RSForm tracking guards; the invariant (unique uids and aliases, alias letter = kind, list = permutation of the store and kind-sorted, registries = key sets, tracking within keys) is stated over all histories with arbitrary colliding / ill-formed arguments; refused-is-identity and tracked-protected are proved, the history invariant is proved or listed as partial in the evidence. Tie: random histories compared op by op and dump by dump with the model; the invariant, 'refused changes nothing' and 'erased is gone from every view' are also evaluated directly on the implementation.",
         note="Fresh uids come from std::random_device: the harness passes the uid actually drawn. Definitions / texts / analysis are opaque in this model. MergeWith is covered by C12.",
     ),
+    "C07": dict(
+        text="Lean model of Schema's analysis bookkeeping (storage, per-constituent info, lazily rebuilt UpdatableGraph reusing the C14 graph model, UpdateState, TriggerParse/ParseCst, SetDefinitionFor with the FindExpr short-cut, SetAliasFor, SubstitueAliases, TranslateAll, Insert/Load/Erase) with the per-constituent analysis instantiated on a definition fragment; the property 'incremental = from scratch' is stated over all histories; closed counterexample theorems record the pinned defect (stale self info), the statement for the repaired algorithm is proved or listed partial in the evidence. Tie: fragment histories compared report-by-report with the model and with the model's from-scratch analysis; general histories (all kinds, functions, predicates, texts) are judged on the implementation itself against a copy re-analysed from scratch.",
+        note="Outside the definition fragment, and for the Thesaurus clause, only the implementation-level oracle applies. Hash-set iteration orders inside the graph updater are not modelled. The defect found (self reference / closed cycle accepted incrementally) was repaired by a fix: commit.",
+    ),
 }
-NOT_APPLICABLE = {p: PENDING for p in ["C01","C02","C03","C04","C05","C06","C07","C08","C10","C11","C12","C13","C15","C16","C17","C18","C19"]}
+NOT_APPLICABLE = {p: PENDING for p in ["C01","C02","C03","C04","C05","C06","C08","C10","C11","C12","C13","C15","C16","C17","C18","C19"]}
